@@ -180,6 +180,7 @@ FIXED_LIB = {
     "kshow": ("seq", [T("<"), ("param", "k", T("d")), T("|"), ("param", "n  m", T("?")), T(">")]),
     "two": ("seq", [("param", "2", T("-")), T("/"), ("param", "1", T("-"))]),
     # list / table markers that are NOT at the start of the expansion must not attract the automatic newline
+    "pair": ("seq", [("param", "k", T("")), T("="), ("param", "v", T(""))]),
     "tbl": T("t {| c |} ; x : y # z * w"), "tbl0": T("{| c |}"), "wrap": ("seq", [T("<i>"), ("param", "1", T("")), T("</i>")]),
 }
 FIXED_PAGES = []
@@ -195,6 +196,13 @@ for inner in ("tbl", "tbl0", "li"):
                     ("if", T("x"), ("seq", [T("p "), c]), T("e")), ("if", T("x"), c, T("e")),
                     ("ifeq", T("x"), T("x"), ("seq", [T("q"), c]), T("d")),
                     ("switch", T("x"), [("x", ("seq", [T("s"), c]))], None)]
+# the same template nested through its own NAMED argument (not a loop), to depth 4, also through #if
+def _nest(d):
+    return ("call", "pair", [("k", T("a%d" % d)), ("v", T("end") if d == 0 else _nest(d - 1))])
+
+
+FIXED_PAGES += [_nest(d) for d in (1, 2, 3, 4)]
+FIXED_PAGES += [("call", "pair", [("k", T("x")), ("v", ("if", T("1"), _nest(2), T("e")))])]
 nlib = 40 if tier == "quick" else 300
 npage = 40 if tier == "quick" else 80
 for li in range(-1, nlib):
@@ -272,7 +280,8 @@ def balanced(seq):
 
 
 ctx = new_ctx({})
-for body in ["a<onlyinclude>x</onlyinclude>b<onlyinclude>y</onlyinclude>c", "<onlyinclude>1</onlyinclude><onlyinclude>2</onlyinclude>"
+for body in ["x<noinclude>doc\n", " <noinclude>d</noinclude> \n y", "a<noinclude>d</noinclude >b", "m<!-- two\nlines -->n\nrest",
+             "a<noinclude>d</noinclude>\n* item", "a<onlyinclude>x</onlyinclude>b<onlyinclude>y</onlyinclude>c", "<onlyinclude>1</onlyinclude><onlyinclude>2</onlyinclude>"
              "<onlyinclude>3</onlyinclude>", "p<onlyinclude/>q<onlyinclude>r</onlyinclude>", "<noinclude>n</noinclude><onlyinclude>x"
              "</onlyinclude>m<!-- c --><onlyinclude>y</onlyinclude>", "<includeonly>i</includeonly>a<includeonly>j</includeonly>"]:
     ctx.add_page("Template:z", 10, body)
